@@ -274,6 +274,7 @@ def check(prop_id, tier, seed):
     # 2. correspondence + direct evaluation of the property ---------------------
     stats_all = []
     mismatches = []
+    inconclusive = []
     for run_spec in spec.get("harness", []):
         sub, profile = run_spec["sub"], run_spec.get("profile", "debug")
         okb, outb = harness_build(profile)
@@ -302,6 +303,19 @@ def check(prop_id, tier, seed):
                                "detail": e})
             for f, v in vals:
                 for item in v:
+                    if run_spec.get("result_kind", spec.get("result_kind")) == "region":
+                        # verified region comparator: (id, n_unaccepted_intervals, [witness]) ; an entry
+                        # without a witness point is undecided residue (never an alarm), n = -1 is an overlap
+                        if item[2] or item[1] == -1:
+                            wit = item[2][0] if item[2] else None
+                            failures.append({"what": "verified region comparator found a witness point far from the outline "
+                                                     "where coverage and fill rule disagree" if item[1] != -1 else
+                                                     "verified cover count found a point far from the outline covered twice",
+                                             "case": item[0], "witness_point_num_den": wit,
+                                             "input": lookup_case(outdir, {"case": item}), "run": sub + "/" + profile})
+                        else:
+                            inconclusive.append(item[0])
+                        continue
                     mismatches.append({"run": sub + "/" + profile, "shard": os.path.basename(f), "case": item})
         elif shards and not ok:
             pass  # model does not build: already recorded as a broken obligation
@@ -395,6 +409,7 @@ def check(prop_id, tier, seed):
         "samples": samples[:8] if samples else [],
         "counters": counters,
         "model_vs_impl_disagreements": len(mismatches),
+        "inconclusive_cells": len(inconclusive),
         "direct_property_failures": len(failures),
         "known_finding_cases": {c: len(v) for c, v in known_hits.items()},
         "broken": [b["what"] for b in broken],
